@@ -134,8 +134,7 @@ pub fn run(rep: &mut Report) {
     }
     match tier {
         Tier::Quick => {
-            let off = rep.cfg.seed % 2;
-            rep.lattice("every 2nd f32 pattern (offset = seed mod 2) -> three targets (fast oracle)", 1 << 31, move |i, l| from32_fast(i * 2 + off, l));
+            rep.exhaustive("all 2^32 f32 patterns -> three targets (fast oracle)", 1 << 32, |i, l| from32_fast(i, l));
         }
         Tier::Thorough => {
             rep.exhaustive("all 2^32 f32 patterns -> three targets (fast oracle)", 1 << 32, |i, l| from32_fast(i, l));
